@@ -607,3 +607,154 @@ func TestC06FileCleanups(t *testing.T) {
 		o.Case("cleanups_once_ok", []string{kit.Ints(bodyRuns), kit.Ints(cleanupRuns), kit.I(e)}, "T", "file-cleanups", "nt")
 	}
 }
+
+// ---------------------------------------------------------------- C20: combined scenarios in whole file-triggered runs
+
+// A config-file run starts a pool per stage; an iteration of a combined scenario that is still
+// between two components when the next stage starts must go on with its own handle: every
+// iteration's event log, grouped by the handle its first component received, equals the model's
+// log of one iteration of the combined body; no handle is in use by two iterations at once; all
+// iterations run the same program, so the run's failed / successful totals are all or nothing.
+func TestC20File(t *testing.T) {
+	o := kit.Get()
+	defer o.Close()
+	r := kit.NewRand(kit.Seed() + 2020)
+	dir := t.TempDir()
+	for i := 0; i < kit.N(8, 48); i++ {
+		mb := 0
+		var setupLog []int64
+		tab := genTab(r, &mb)
+		setupProg := prog{tab: tab, log: &setupLog, mu: &sync.Mutex{}}
+		nc := int(r.Range(2, 5))
+		type comp struct{ setup, run []act }
+		comps := make([]comp, nc)
+		stopBias := kit.Pick(r, 0, 10, 25)
+		for ci := range comps {
+			comps[ci].setup = []act{{5, 2*ci + 1000, 0}}
+			comps[ci].run = append([]act{{5, 2*ci + 1001, 0}}, genActs(r, len(tab), 4, &mb, stopBias)...)
+		}
+		// the first component never stops the iteration, so that every iteration reaches the pause
+		var first []act
+		for _, a := range comps[0].run {
+			if a.kind != 2 && a.kind != 3 && a.kind != 4 {
+				first = append(first, a)
+			}
+		}
+		comps[0].run = first
+		type rec struct {
+			id   string
+			logv []int64
+			p    prog
+		}
+		var mu sync.Mutex
+		byHandle := map[*f1testing.T]*rec{}
+		var recs []*rec
+		shared, idChanged, lost := 0, 0, 0
+		var seq atomic.Int64
+		var fns []f1testing.ScenarioFn
+		for ci := range comps {
+			c, ci := comps[ci], ci
+			fns = append(fns, func(st *f1testing.T) f1testing.RunFn {
+				setupProg.exec(st, c.setup)
+				return func(t *f1testing.T) {
+					var rc *rec
+					mu.Lock()
+					if ci == 0 {
+						if byHandle[t] != nil {
+							shared++
+						}
+						rc = &rec{id: t.Iteration}
+						rc.p = prog{tab: tab, log: &rc.logv, mu: &sync.Mutex{}}
+						byHandle[t] = rc
+						recs = append(recs, rc)
+					} else {
+						rc = byHandle[t]
+					}
+					mu.Unlock()
+					if rc == nil {
+						mu.Lock()
+						lost++
+						mu.Unlock()
+						return
+					}
+					if ci == 0 {
+						mine := rc
+						t.Cleanup(func() {
+							mu.Lock()
+							if byHandle[t] == mine {
+								delete(byHandle, t)
+							}
+							mu.Unlock()
+						})
+					}
+					if ci == 1 {
+						// every third iteration is still here when the next stage's pool starts
+						if seq.Add(1)%3 == 0 {
+							time.Sleep(110 * time.Millisecond)
+						}
+					}
+					if t.Iteration != rc.id {
+						mu.Lock()
+						idChanged++
+						mu.Unlock()
+					}
+					rc.p.exec(t, c.run)
+				}
+			})
+		}
+		_, yaml := runkit.QuickMode("file", r.Intn(6))
+		path := dir + "/c20f_" + strconv.Itoa(i) + ".yaml"
+		_ = os.WriteFile(path, []byte(yaml), 0o600)
+		out, hung, dump := runkit.DoTimeout(runkit.Config{Mode: "file", FileArg: path, Scenario: f1.CombineScenarios(fns...), Ctx: context.Background(),
+			Opts: options.RunOptions{}}, 60*time.Second)
+		if hung {
+			o.Fail("run-hung", "file run did not return: "+dump[:min(len(dump), 2000)])
+			continue
+		}
+		if out.Result == nil {
+			o.Fail("run-error", fmt.Sprintf("file run produced no result: %v", out.Err))
+			continue
+		}
+		sn := out.Result.Snapshot()
+		mu.Lock()
+		n := int64(len(recs))
+		if shared > 0 {
+			o.Fail("c20-shared-handle", fmt.Sprintf("%d iterations of a combined scenario were handed a handle that another running iteration was still using (file run, %d iterations)", shared, n))
+		}
+		if idChanged > 0 {
+			o.Fail("c20-iteration-id-changed", fmt.Sprintf("%d times a later component saw another iteration id on its handle than the first component of the same iteration", idChanged))
+		}
+		if lost > 0 {
+			o.Fail("c20-handle", fmt.Sprintf("%d times a later component received a handle no first component had received", lost))
+		}
+		nf, ns := int64(sn.FailedIterationDurations.Count), int64(sn.SuccessfulIterationDurations.Count)
+		items := make([]string, nc)
+		for ci, c := range comps {
+			items[ci] = kit.List(encActs(c.setup), encActs(c.run))
+		}
+		outcome := ""
+		switch {
+		case n == 0:
+		case nf == n && ns == 0:
+			outcome = "T"
+		case ns == n && nf == 0:
+			outcome = "F"
+		default:
+			o.Fail("c20-mixed-outcomes", fmt.Sprintf("all %d iterations ran the same combined program, yet %d were reported failed and %d successful", n, nf, ns))
+		}
+		seen := map[string]bool{}
+		for _, rc := range recs {
+			rc.p.mu.Lock()
+			ev := kit.Ints(rc.logv)
+			rc.p.mu.Unlock()
+			if outcome == "" || seen[ev] || len(seen) >= 3 {
+				continue
+			}
+			seen[ev] = true
+			o.Case("combine_obs", []string{encTab(tab), kit.List(items...), kit.I(1)},
+				"ok "+kit.List(kit.List(kit.Ints(setupLog), "F"), kit.List(ev, kit.List(outcome))), "combine", "file-run", "nt")
+		}
+		mu.Unlock()
+		o.Count("file-run-iterations", kit.Bucket(n))
+	}
+}
